@@ -131,6 +131,33 @@ fn check_prim(shape: &Shape, sty: &Sty, dotted: bool, obs: &mut Obs) {
             obs.class_if(!full, "truncated-iteration");
             let r = probe(obs, "points", || drain(p.points(), budget));
             iter_check(obs, "points()", full, r);
+            // the other ways to consume the iterator (allocation-free): nth from the start and after one item, skip,
+            // step_by, last and count on small shapes, size_hint, a clone
+            probe(obs, "points: nth/skip/step_by/size_hint/clone", || {
+                let mut n = 0u64;
+                let small = full && budget <= 100_000;
+                for k in [0usize, 1, 5, 1 << 20, usize::MAX] {
+                    if k > 5 && !small {
+                        continue;
+                    }
+                    n += p.points().nth(k).is_some() as u64;
+                    let mut it = p.points();
+                    let _ = it.next();
+                    n += it.nth(k).is_some() as u64;
+                    n += it.size_hint().0 as u64 & 1;
+                }
+                n += p.points().skip(2).take(4).count() as u64;
+                n += p.points().step_by(3).take(4).count() as u64;
+                let mut it = p.points();
+                let _ = it.next();
+                let mut cl = it.clone();
+                n += cl.next().is_some() as u64;
+                if small {
+                    n += p.points().last().is_some() as u64;
+                    n += p.points().count() as u64;
+                }
+                n
+            });
             obs.outcome(&r);
             obs.nontrivial_if(matches!(r, Some(Ok(n)) if n > 0));
         }
@@ -243,6 +270,19 @@ fn text_probes(text: &str, pos: P2, style: embedded_graphics::mono_font::MonoTex
     if r == Some(false) || r2 == Some(false) {
         obs.fail("terminates-within-budget", "text draw exceeded 2^24 pixels".to_string());
     }
+    // display-sized targets (the text may start left of / above them or run out of them), also behind clipped()
+    probe(obs, "text draw (64x64 and 320x240 targets, clipped)", || {
+        let mut ok = true;
+        for tb in [rect(0, 0, 64, 64), rect(-257, 1, 320, 240), rect(0, 0, 0, 0)] {
+            let mut n = NullTarget::<C, true>::new(tb, 1 << 24);
+            ok &= t.draw(&mut n).is_ok();
+            let mut d = NullTarget::<C, false>::new(tb, 1 << 24);
+            ok &= t.draw(&mut d).is_ok();
+            let mut p = NullTarget::<C, true>::new(big, 1 << 24);
+            ok &= t.draw(&mut p.clipped(&tb)).is_ok();
+        }
+        ok
+    });
     probe(obs, "text translate", || t.translate(Point::new(3, -3)).bounding_box());
 }
 
@@ -258,6 +298,12 @@ where
         let a = im.draw(&mut n).is_ok();
         let mut d = NullTarget::<I::Color, false>::new(big, 1 << 24);
         let b = Image::with_center(img, Point::new(at.0, at.1)).draw(&mut d).is_ok();
+        for tb in [rect(0, 0, 64, 64), rect(-257, 1, 320, 240), rect(0, 0, 0, 0)] {
+            let mut w = NullTarget::<I::Color, true>::new(tb, 1 << 24);
+            let _ = im.draw(&mut w);
+            let mut p = NullTarget::<I::Color, true>::new(big, 1 << 24);
+            let _ = im.draw(&mut p.clipped(&tb));
+        }
         (a, b, n.pixels + d.pixels)
     });
     if let Some((a, b, n)) = r {
@@ -623,13 +669,13 @@ fn other_cases(tier: Tier) -> Vec<Case> {
     let mut v = vec![];
     // text: null font, line heights, empty strings
     for font in ["null", "ascii::FONT_4X6", "iso_8859_1::FONT_10X20", "custom:5x7+1", "custom:3x2+4", "custom:8x8+0", "custom:1x1+1024"] {
-        for text in ["", "a", "ab\ncd", "\n\n", "x\r\ny\n", "Hello World! Hello World!", "\u{1F600}\u{0}"] {
+        for text in ["", "a", "ab\ncd", "\n\n", "x\r\ny\n", "Hello World! Hello World!", "\u{1F600}\u{0}", "Gr\u{f6}\u{df}e \u{e4}\u{f6}\u{fc}", "a\u{1F600}b\u{1F600}c"] {
             for lh in [(0u8, 0u32), (0, 1), (0, 1024), (1, 400), (1, 100), (1, 0)] {
                 for align in 0..3u8 {
                     for baseline in 0..4u8 {
                         for deco in [0u8, 3, 7, 11, 15] {
-                            for pos in [(0, 0), (-1024, 1024), (1024, -1024)] {
-                                if tier.is_thorough() || (align as i32 + baseline as i32 + deco as i32 + pos.0 / 1024) % 2 == 0 {
+                            for pos in [(0, 0), (-1024, 1024), (1024, -1024), (-23, -5), (61, 62)] {
+                                if tier.is_thorough() || (align as i32 + baseline as i32 + deco as i32 + pos.0 / 1024 + pos.0 % 2) % 2 == 0 {
                                     v.push(Case::Text { font: font.into(), text: text.into(), lh, align, baseline, deco, pos });
                                 }
                             }
@@ -697,7 +743,7 @@ fn run_part(run: &mut Run) {
             check,
         );
     } else {
-        run.sweep_vec("text-images-adapters-ranges", "text (null font, line heights {0,1,1024 px,0,100,400 %}, empty strings), images (zero-sized, sub-images outside/across/around at display scale), adapter stacks with display-scale areas, out-of-range points/indices and display-scale fill areas (zero-sized ones included) for Framebuffer, ImageRaw::pixel, raw load/store/nth and sub_image", || other_cases(tier), check);
+        run.sweep_vec("text-images-adapters-ranges", "text (null font, line heights {0,1,1024 px,0,100,400 %}, empty and multi-byte strings, positions at, far from and just left of / at the far corner of 64x64 and 320x240 targets, also behind clipped()), images (zero-sized, sub-images outside/across/around at display scale), adapter stacks with display-scale areas, out-of-range points/indices and display-scale fill areas (zero-sized ones included) for Framebuffer, ImageRaw::pixel, raw load/store/nth and sub_image", || other_cases(tier), check);
     }
 }
 
